@@ -28,6 +28,9 @@ pub enum Corr {
     DeletePoint(usize),
     /// the input value of query i removed
     DeleteValue(usize),
+    /// whole-coset query sets only: the last query's evaluation point is dropped, its input value is changed, and
+    /// the honest value is supplied as a sibling leaf instead - the changed queried value must not go unchecked
+    LastQueryUnchecked,
 }
 impl Corr {
     pub fn kind(&self) -> &'static str {
@@ -48,6 +51,7 @@ impl Corr {
             Corr::DropLayerWitness => "drop-layer-witness",
             Corr::DeletePoint(_) => "delete-eval-point-of-a-query",
             Corr::DeleteValue(_) => "delete-input-value",
+            Corr::LastQueryUnchecked => "last-query-value-unchecked",
         }
     }
     pub fn to_json(&self) -> Value {
@@ -68,6 +72,7 @@ impl Corr {
             Corr::DropLayerWitness => json!({"c": "droplayer"}),
             Corr::DeletePoint(i) => json!({"c": "delpoint", "i": i}),
             Corr::DeleteValue(i) => json!({"c": "delvalue", "i": i}),
+            Corr::LastQueryUnchecked => json!({"c": "lastunchecked"}),
         }
     }
     pub fn from_json(v: &Value) -> Option<Corr> {
@@ -89,6 +94,7 @@ impl Corr {
             "droplayer" => Corr::DropLayerWitness,
             "delpoint" => Corr::DeletePoint(g("i")?),
             "delvalue" => Corr::DeleteValue(g("i")?),
+            "lastunchecked" => Corr::LastQueryUnchecked,
             _ => return None,
         })
     }
@@ -123,12 +129,25 @@ impl Corr {
             Corr::DeleteValue(i) => {
                 inst.values.remove(*i);
             }
+            Corr::LastQueryUnchecked => {
+                let n = inst.values.len();
+                let honest = inst.values[n - 1];
+                inst.points.pop();
+                inst.values[n - 1] += Felt::ONE;
+                if let Some(l0) = inst.leaves.first_mut() {
+                    l0.push(honest);
+                }
+            }
         }
     }
 }
 
 pub fn corruptions(inst: &Instance, dense: bool) -> Vec<Corr> {
     let mut out = Vec::new();
+    // applicable when the queries fill whole cosets of the first layer (no sibling leaf there) and there are >= 2
+    if inst.values.len() >= 2 && inst.leaves.first().map(|l| l.is_empty()).unwrap_or(false) {
+        out.push(Corr::LastQueryUnchecked);
+    }
     for i in 0..inst.values.len() {
         out.push(Corr::Value(i));
         out.push(Corr::DeletePoint(i));
